@@ -109,6 +109,7 @@ std::vector<std::string> open_paths();
 // POSIX record-lock model: a second (stub) process tries F_SETLK on the file.
 // Returns true if the foreign process would obtain the lock.
 bool foreign_trylock(const std::string &path);
+bool foreign_lock(const std::string &path, bool on);   // the stub second process takes (on) or drops (off) the record lock; false if it cannot
 bool locked_by_self(const std::string &path);
 
 // Crash images.
